@@ -476,7 +476,7 @@ fn leaf(s: St) -> Clause {
         St::Skip => bin(vec![key("l"), Part::Filter(vec![vec![bin(vec![key("x")], BinOp::Eq, false, i(9))]]), key("x")], BinOp::Eq, false, i(1)),
     }
 }
-const SITES: [&str; 8] = ["rule-body", "rule-when", "when-body", "when-cond", "block-all", "block-some", "type-block", "filter-body"];
+const SITES: [&str; 9] = ["rule-body", "rule-when", "when-body", "when-cond", "block-all", "block-some", "type-block", "type-when", "filter-body"];
 
 fn site_program(site: &str, cnf: &Cnf) -> File {
     let pass = || vec![vec![leaf(St::Pass)]];
@@ -492,6 +492,7 @@ fn site_program(site: &str, cnf: &Cnf) -> File {
         "block-all" => rule("r", vec![vec![Clause::Block { some: false, q: vec![key("b")], not_empty: false, lets: vec![], body: cnf.clone() }]]),
         "block-some" => rule("r", vec![vec![Clause::Block { some: true, q: vec![key("c"), Part::All], not_empty: false, lets: vec![], body: cnf.clone() }]]),
         "type-block" => rule("r", vec![vec![Clause::TypeBlock { tname: "AWS::X::Y".into(), cond: None, lets: vec![], body: cnf.clone() }]]),
+        "type-when" => rule("r", vec![vec![Clause::TypeBlock { tname: "AWS::X::Y".into(), cond: Some(cnf.clone()), lets: vec![], body: pass() }]]),
         "filter-body" => rule("r", vec![vec![un(vec![key("f"), Part::Filter(cnf.clone())], UnOp::Empty, true)]]),
         _ => unreachable!(),
     };
@@ -499,7 +500,7 @@ fn site_program(site: &str, cnf: &Cnf) -> File {
 }
 fn site_expect(site: &str, fold: St) -> St {
     match site {
-        "rule-when" | "when-cond" => {
+        "rule-when" | "when-cond" | "type-when" => {
             if fold == St::Pass {
                 St::Pass
             } else {
@@ -668,7 +669,7 @@ pub fn extended_pool() -> Vec<File> {
     let mut out = vec![];
     let a = || vec![key("a")];
     // type blocks with and without conditions
-    for cond in [None, Some(vec![vec![un(vec![key("Resources")], UnOp::Exists, false)]]), Some(vec![vec![un(vec![key("zz")], UnOp::Exists, false)]])] {
+    for cond in [None, Some(vec![vec![un(vec![key("Resources")], UnOp::Exists, false)]]), Some(vec![vec![un(vec![key("zz")], UnOp::Exists, false)]]), Some(vec![vec![leaf(St::Skip)]]), Some(vec![vec![leaf(St::Skip), leaf(St::Pass)], vec![leaf(St::Skip)]])] {
         for body in [vec![vec![leaf(St::Pass)]], vec![vec![leaf(St::Fail)], vec![leaf(St::Pass)]], vec![vec![leaf(St::Skip), leaf(St::Fail)]]] {
             out.push(file1(rule("r", vec![vec![Clause::TypeBlock { tname: "AWS::X::Y".into(), cond: cond.clone(), lets: vec![], body: body.clone() }]])));
             out.push(file1(rule("r", vec![vec![Clause::TypeBlock { tname: "AWS::No::Such".into(), cond: cond.clone(), lets: vec![], body }]])));
